@@ -19,8 +19,8 @@ Definition outcome_eqb (a b : bool * option nat * option nat) : bool :=
 
 Inductive case :=
 | CDepth (k : reqkind) (sels : list (bool * nat)) (final : nat)
-| CSched (reqs : list reqkind) (m : nat) (completed : bool)
-         (obs : list (bool * option nat * option nat)) (reloads_done : nat) (final_ver : nat).
+| CSched (reqs : list reqkind) (m : nat) (nfail : nat) (completed : bool)
+         (obs : list (bool * option nat * option nat)) (reloads_done : nat) (reload_errs : nat) (final_ver : nat).
 
 Fixpoint all2 {A B} (f : A -> B -> bool) (l : list A) (r : list B) : bool :=
   match l, r with
@@ -35,10 +35,11 @@ Definition chk (c : case) : bool :=
     (* the observed lock-depth trace is the model's trace of that request kind, which is wf *)
     let '(s, f) := depth_trace 0 (trace_of_req k) in
     wf (trace_of_req k) && list_eqb pair_eqb s sels && Nat.eqb f final
-  | CSched reqs m completed obs rdone fv =>
-    (* the model's theorems: everything completes; each request is served by ONE version
-       u <= m; all m reloads happen; the final selector is the initial one iff m = 0 *)
-    completed && Nat.eqb rdone m &&
+  | CSched reqs m nfail completed obs rdone rerrs fv =>
+    (* the model's theorems: everything completes (the m reloads that succeed and the nfail
+       that fail); each request is served by ONE version u <= m; the final selector is the
+       initial one iff m = 0 *)
+    completed && Nat.eqb rdone (m + nfail) && Nat.eqb rerrs nfail &&
     all2 (fun k o => existsb (fun u => outcome_eqb (req_outcome k u) o) (seq 0 (S m))) reqs obs &&
     (if Nat.eqb m 0 then Nat.eqb fv 0 else Nat.leb 1 fv && Nat.leb fv m)
   end.
